@@ -212,6 +212,14 @@ class _Shape(ast.NodeTransformer):
                         ast.copy_location(n, node)
                 self.generic_visit(loop)
                 return [init, loop]
+        # K16a: `a, b = (X, Y) if C else (Z, W)` is the statement form `if C: a, b = (X, Y) else: a, b = (Z, W)` (then K16)
+        if len(node.targets) == 1 and isinstance(node.targets[0], ast.Tuple) and isinstance(node.value, ast.IfExp) \
+                and isinstance(node.value.body, ast.Tuple) and isinstance(node.value.orelse, ast.Tuple) and not _has_walrus(node.value.test):
+            import copy as _cp
+            arms = [ast.copy_location(ast.Assign(targets=[_cp.deepcopy(node.targets[0])], value=v, lineno=node.lineno), node)
+                    for v in (node.value.body, node.value.orelse)]
+            new_if = ast.copy_location(ast.If(test=node.value.test, body=[arms[0]], orelse=[arms[1]]), node)
+            return self.visit_If(new_if)
         # K16: `a, b = (X, Y)` with plain names on the left and no later value reading an earlier target is `a = X; b = Y`;
         # a resulting `x = x` is dropped
         self.generic_visit(node)
@@ -1149,7 +1157,50 @@ def _hoist_nested_helper_calls(tree: ast.Module, defs: dict) -> None:
                     idx += 1   # the inserted assignment; the statement itself is looked at again for further nested calls
 
 
-def _inline_one_use(tree: ast.Module, modname: str, name: str, d: ast.FunctionDef, use: ast.Name, log: Optional[list]) -> None:
+def _inline_new_methods(tree: ast.Module, modname: str, known: set[str], log: Optional[list]) -> None:
+    """A METHOD that the confirmed tree does not have (plain, class or static method, name defined once in the module, returns
+    only in tail position, no super(), its receiver parameter never called or rebound) with one to four call sites, all of them
+    statement-level calls `name.m(...)` on a plain name, is substituted into its callers like a module-level helper: code that
+    moved into a new method is analysed where it came from."""
+    import copy
+    names: dict[str, int] = {}
+    for n in ast.walk(tree):
+        if isinstance(n, (ast.FunctionDef, ast.AsyncFunctionDef)):
+            names[n.name] = names.get(n.name, 0) + 1
+    for c in [x for x in tree.body if isinstance(x, ast.ClassDef)]:
+        for d in list(c.body):
+            if not isinstance(d, ast.FunctionDef) or f"{modname}.{c.name}.{d.name}" in known or names.get(d.name) != 1 \
+                    or (d.name.startswith("__") and d.name.endswith("__")):
+                continue
+            decos = [ast.unparse(x) for x in d.decorator_list]
+            if any(x not in ("staticmethod", "classmethod") for x in decos):
+                continue
+            kind = "static" if "staticmethod" in decos else "bound"
+            probe = copy.deepcopy(d)
+            probe.decorator_list = []
+            if not _eligible_helper(probe):
+                continue
+            if any(isinstance(n, ast.Call) and isinstance(n.func, ast.Name) and n.func.id == "super" for n in ast.walk(d)):
+                continue
+            if kind == "bound":
+                if not d.args.args:
+                    continue
+                me = d.args.args[0].arg
+                if any((isinstance(n, ast.Call) and isinstance(n.func, ast.Name) and n.func.id == me)
+                       or (isinstance(n, ast.Name) and n.id == me and isinstance(n.ctx, (ast.Store, ast.Del))) for n in ast.walk(d)):
+                    continue
+            uses = [n for n in ast.walk(tree) if isinstance(n, ast.Attribute) and n.attr == d.name and isinstance(n.ctx, ast.Load)
+                    and not any(n is x for x in ast.walk(d))]
+            if not 1 <= len(uses) <= 4 or not all(isinstance(u.value, ast.Name) for u in uses):
+                continue
+            for u in uses:
+                _inline_one_use(tree, modname, d.name, d, u, log, kind)
+            if not any(isinstance(n, ast.Attribute) and n.attr == d.name for n in ast.walk(tree) if not any(n is x for x in ast.walk(d))):
+                c.body = [x for x in c.body if x is not d] or [ast.Pass()]
+
+
+def _inline_one_use(tree: ast.Module, modname: str, name: str, d: ast.FunctionDef, use: ast.AST, log: Optional[list],
+                    method_kind: str = "") -> None:
     import copy
     if True:
         # find the statement and its container
@@ -1174,13 +1225,20 @@ def _inline_one_use(tree: ast.Module, modname: str, name: str, d: ast.FunctionDe
                     if call is None or call.func is not use:
                         continue
                     params = [p.arg for p in d.args.args]
-                    if call.keywords and any(k.arg is None or k.arg not in params for k in call.keywords):
-                        continue
-                    if any(isinstance(x, ast.Starred) for x in call.args) or len(call.args) > len(params):
-                        continue
                     bound: dict[str, ast.AST] = {}
+                    off = 0
+                    if isinstance(use, ast.Attribute) and method_kind == "bound":
+                        # a method: its first parameter is the object it is called on
+                        if not params or not isinstance(use.value, ast.Name):
+                            continue
+                        bound[params[0]] = use.value
+                        off = 1
+                    if call.keywords and any(k.arg is None or k.arg not in params[off:] for k in call.keywords):
+                        continue
+                    if any(isinstance(x, ast.Starred) for x in call.args) or len(call.args) > len(params) - off:
+                        continue
                     for i, a in enumerate(call.args):
-                        bound[params[i]] = a
+                        bound[params[i + off]] = a
                     for k in call.keywords:
                         bound[k.arg] = k.value
                     defaults = d.args.defaults
@@ -1433,6 +1491,7 @@ def canonicalise(tree: ast.Module, modname: str, log: Optional[list] = None) -> 
     if known:
         before = len(tree.body), sum(1 for _ in ast.walk(tree))
         _substitute_expression_methods(tree, modname, known)
+        _inline_new_methods(tree, modname, known, log)
         _inline_unknown_helpers(tree, modname, known, log)
         if before != (len(tree.body), sum(1 for _ in ast.walk(tree))):
             tree = _Shape().visit(tree)  # the substituted statements get the same normal form as hand-written ones
